@@ -61,7 +61,7 @@ add("C17","exploration","runtime monitor: wallet-world conservation and balance 
     "2-3 real wallets and 1-2 real mints; after every operation reported/pending balances, duplicate secrets, no-loss and conservation equations are evaluated from the byte-level transport record and mint-side states; a swap that leaves more at the mint than the fee the mint charges for its inputs is a loss. A directed sequence per history makes every kind of operation once; the listed finding is reproduced at every seed.",
     T, "3/C17")
 add("C18","exploration","runtime monitor: exact-amount and fee oracle on Wallet.Send over generated wallet contents, amounts, fee modes and fee rates",
-    "Harness-minted proofs of arbitrary denominations are placed in a real wallet store; every amount is sent in both fee modes; sum, fee for exactly those proofs, distinctness, mint-side state and the success premise are checked; also as the first operation after a rotation the wallet has not seen, and for sends issued at the same moment; one fixed store reproduces the listed finding at every seed.",
+    "Harness-minted proofs of arbitrary denominations are placed in a real wallet store; every amount is sent in both fee modes; sum, fee for exactly those proofs, distinctness, mint-side state and the success premise are checked; also as the first operation after a rotation the wallet has not seen, and for sends issued at the same moment (thorough: that stage three more times under the race detector); one fixed store reproduces the listed finding at every seed.",
     T, "3/C18")
 add("C19","exploration","runtime monitor: counter-reuse detection on every submitted B_ (independent NUT-13 mapping) and restore completeness vs. mint-side state, incl. wallet crash injection",
     "Wallet histories, restore->continue->restore chains, and a crash at every store/HTTP boundary of mint/send/receive/melt followed by restore from the mnemonic.",
